@@ -6,6 +6,7 @@
    shown below to be RFC 6811's three sentences.  Quantified over every history [ops] of
    add / remove / remove-by-source on records with zero host bits ([op_ok]), both families,
    any AS (0 included), any max-length, any number of sources, and every query.            *)
+From RtrV Require Import Base.CSem Base.Bits Gen.Generated.
 From RtrV Require Import Pfx.TrieModel Pfx.PfxTable Pfx.PfxProofs Pfx.PfxValidate Pfx.PfxHistory Pfx.Hazards.
 From Coq Require Import Permutation.
 
@@ -43,7 +44,23 @@ Theorem C01_no_ub : forall ops T cs cbs v6 asn q qlen,
   tvalidate_ub hz_zero_code false T v6 asn q qlen = false.
 Proof. exact c01_no_ub. Qed.
 
+(* the model's list-of-bits view is what the C's uint32_t arithmetic computes (IPv4 word; the translated
+   lrtr_get_bits): comparing the first n bits through lrtr_get_bits = equality of [firstn n] of the bit
+   lists, and extracting bit lvl = reading position lvl; inside that domain the function never hits UB.
+   (For IPv6 the four-word composition lrtr_ipv6_get_bits is translated too but related to the model by
+   the correspondence run only.) *)
+Theorem C01_bits_compare : forall a b n, (0 <= a < 2 ^ 32)%Z -> (0 <= b < 2 ^ 32)%Z -> (0 <= n <= 32)%Z ->
+  exists x y, lrtr_get_bits_gen a 0 n = Some x /\ lrtr_get_bits_gen b 0 n = Some y /\
+              (x = y <-> firstn (Z.to_nat n) (bits32 a) = firstn (Z.to_nat n) (bits32 b)).
+Proof. exact prefix_compare. Qed.
+
+Theorem C01_bit_select : forall a lvl, (0 <= a < 2 ^ 32)%Z -> (0 <= lvl < 32)%Z ->
+  exists x, lrtr_get_bits_gen a lvl 1 = Some x /\ (x =? 0)%Z = negb (nth (Z.to_nat lvl) (bits32 a) false).
+Proof. exact bit_select. Qed.
+
 Print Assumptions C01_state.
+Print Assumptions C01_bits_compare.
+Print Assumptions C01_bit_select.
 Print Assumptions C01_reasons.
 Print Assumptions C01_spec_is_rfc6811.
 Print Assumptions C01_no_ub.
